@@ -415,14 +415,18 @@ public:
 
         if (newSize > size())
         {
-            for (size_type i = 0; i < newSize - size(); ++i)
+            const size_type     theCount = newSize - size();
+
+            for (size_type i = 0; i < theCount; ++i)
             {
                 push_back(defaultValue.value);
             }
         }
         else
         {
-            for (size_type i = 0; i < size() - newSize; ++i)
+            const size_type     theCount = size() - newSize;
+
+            for (size_type i = 0; i < theCount; ++i)
             {
                 pop_back();
             }
